@@ -1071,6 +1071,10 @@ func (v *view) oracleC08() {
 	t := v.terminal
 	v.relevant("C08")
 	produced := len(v.hSend) // attempts, in order
+	if t.Err != nil && t.Err.Class == "panic" && produced != 1 {
+		v.fail("C08", "panic-instead-of-error|"+countWord(produced), "the handler sent %d responses; the caller's %s panicked instead of reporting an error: %s", produced, t.Op, t.Err.Text)
+		return
+	}
 	okN := v.responsesProduced()
 	if t.Err.IsNil() {
 		v.s.stats.Probes["c08-single-success"]++
